@@ -27,6 +27,35 @@ CALL = 'core_seq(e, nA, nB, alias, ka, kb, va, vb, S, T, U, ix, ix2, val, vs, kc
 STRINGY = {'stringLower', 'stringUpper', 'stringTrim', 'stringReplace', 'stringSplit'}
 
 
+CORE_ESC = '''
+import re, urllib.parse
+from bare_script.library import SCRIPT_FUNCTIONS
+POOL = ['a.b', 'a*b', '(', '[x]', 'a' + chr(92) + 'b', '^$', 'a b', chr(233), chr(0x1F600), 'a/b?c=d&e#f', '%41', '+', '', '{1,2}', 'a|b', chr(10), "it's", '~-_.!*()', 'x y+z']
+
+
+def _pick(i):
+    for j in range(len(POOL)):
+        if i == j:
+            return POOL[j]
+    return POOL[0]
+
+
+def core_escape(k, k2):
+    s, other = _pick(k), _pick(k2)
+    pat = SCRIPT_FUNCTIONS['regexEscape']([s], None)
+    rx = SCRIPT_FUNCTIONS['regexNew']([pat], None)
+    if rx is None or rx.fullmatch(s) is None:
+        return False, {{'clause': 'regexEscape(s) must yield a pattern that matches s', 's': s, 'pattern': pat}}
+    if other != s and rx.fullmatch(other) is not None:
+        return False, {{'clause': 'regexEscape(s) must match exactly s', 's': s, 'pattern': pat, 'also_matches': other}}
+    for fn in ('urlEncode', 'urlEncodeComponent'):
+        enc = SCRIPT_FUNCTIONS[fn]([s], None)
+        if not isinstance(enc, str) or urllib.parse.unquote(enc) != s:
+            return False, {{'clause': fn + ' must be reversible by percent-decoding', 's': s, 'encoded': repr(enc)}}
+    return True, {{}}
+'''
+
+
 def pre_for(names, tier):
     slen = 2 if tier == 'quick' else 3
     pre = ['len(e) == 5', '0 <= nA <= 3', '0 <= nB <= 2', f'len(S) <= {slen}', 'len(T) <= 1', 'len(U) <= 1',
@@ -91,6 +120,10 @@ def plan(tier, seed, workdir):
         body += hgen.harness('seq', PARAMS, pre_for(names_, tier), core_call=CALL)
         path = hgen.write_module(workdir, f'c15_{tag}', body)
         hgen.ch_tasks(p, path, 'seq', t1 if len(names_) == 1 else t1 * 2, twin_timeout=40, family=f'{len(names_)}-step', sequence=list(names_))
+    body = CORE_ESC.replace('{{', '{').replace('}}', '}')
+    body += hgen.harness('escape', 'k: int, k2: int', ['0 <= k < 19', '0 <= k2 < 19'], core_call='core_escape(k, k2)')
+    path = hgen.write_module(workdir, 'c15_escape', body)
+    hgen.ch_tasks(p, path, 'escape', t1, family='regexEscape / urlEncode on solver-indexed pool strings (C boundaries: bug-finding over a pool)')
     p.rule = ('one CrossHair condition per library function (47 call layouts of the 39 array/object/string functions) and per pair of '
               'same-family functions with at least one mutator; symbolic container pre-state, indices, counts, values, aliasing flag, '
               'float-spelling flag')
@@ -99,7 +132,7 @@ def plan(tier, seed, workdir):
                 'sequence length <= 2; quick: 6 fixed + 24 seeded pairs, thorough: all same-family pairs with a mutator']
     p.stubs = ['ValueArgsError message formatting']
     p.outside = ['histories longer than 2 calls (covered by the one-step-from-arbitrary-state argument, not run)',
-                 'regexEscape matches exactly s / URL encoding reversibility: re and urllib.parse.quote are C boundaries (not applicable)',
+                 'regexEscape matches exactly s / URL encoding reversibility for ALL strings: re and urllib.parse.quote are C boundaries (not applicable); a 19-string pool is checked',
                  'wrong-kind arguments (checked under C05)', 'empty search/separator strings for stringIndexOf/LastIndexOf/Split/Replace', 'arrays nested in arrays']
     p.assumptions = ['reference models vf/hlib/c15ref.py', 'CrossHair/z3 models of list/dict/str', 'value_compare equality for arrayIndexOf (C11)']
     p.samples = [{'sequence': list(s), 'arg_specs': [c15ref.FUNCS[n][0] for n in s]} for s in seqs[:3] + seqs[-2:]]
